@@ -1,0 +1,23 @@
+//go:build verif
+
+package store
+
+// Contracts for the verification machinery in /verif (comment-only; see /verif/DESIGN.md).
+
+//@ func IsIdentity
+//@   ensures def [C04,C07]: err == nil ==> ok == (mhtype(key) == 0) && bytesval(digest) == digestof(mhof(key))
+
+//@ func ShouldPut
+//@   let _, idok, iderr := call[IsIdentity#0]
+//@   ensures identity_skipped [C04]: !storeIdentityCIDs && iderr == nil && mhtype(c) == 0 ==> err == nil && !result0
+//@   ensures too_large [C04]: (storeIdentityCIDs || (iderr == nil && mhtype(c) != 0)) && bytelen(c) > maxIndexCidSize ==> !result0 && typeis(err, "*car2.ErrCidTooLarge")
+//@   ensures allow_dup [C04]: err == nil && blockstoreAllowDuplicatePuts && !(!storeIdentityCIDs && mhtype(c) == 0) ==> result0
+//@   ensures dedup_by_cid [C04]: err == nil && !blockstoreAllowDuplicatePuts && blockstoreUseWholeCIDs && !(!storeIdentityCIDs && mhtype(c) == 0) ==> result0 == !byCid(idx, c)
+//@   ensures dedup_by_multihash [C04]: err == nil && !blockstoreAllowDuplicatePuts && !blockstoreUseWholeCIDs && !(!storeIdentityCIDs && mhtype(c) == 0) ==> result0 == !byMh(idx, mhof(c))
+//@   ensures admitted_fits [C04]: err == nil && result0 ==> bytelen(c) <= maxIndexCidSize
+//@   ensures pure [C04]: nrec(idx) == old(nrec(idx))
+
+//@ func Has
+//@   ensures identity [C04]: !storeIdentityCIDs && err == nil && mhtype(c) == 0 ==> result0
+//@   ensures whole [C04]: err == nil && blockstoreUseWholeCIDs && !(!storeIdentityCIDs && mhtype(c) == 0) ==> result0 == byCid(idx, c)
+//@   ensures by_multihash [C04]: err == nil && !blockstoreUseWholeCIDs && !(!storeIdentityCIDs && mhtype(c) == 0) ==> result0 == byMh(idx, mhof(c))
